@@ -281,6 +281,9 @@ type vfC15Pending struct {
 	newNF    map[int]vfC15Expect
 	raw      map[int][]byte
 	outcomes map[int]string
+	// rewriteOK[idx]: the action may store the list again although its content
+	// is the same (it is not a refresh).
+	rewriteOK map[int]bool
 }
 
 type vfC15World struct {
@@ -885,7 +888,7 @@ func (w *vfC15World) verify(t vfC15TB) {
 				t.Fatalf("VERIF-INCONCLUSIVE stat %s: %v", path, serr)
 			}
 			ino := fi.Sys().(*syscall.Stat_t).Ino
-			if l.HasIno && !p.changed[l.Idx] && ino != l.Ino {
+			if l.HasIno && !p.changed[l.Idx] && !p.rewriteOK[l.Idx] && ino != l.Ino {
 				t.Fatalf("after %s: file of list %d (%s) was rewritten (inode %d -> %d) although its content did not change (outcome: %s; source behaviour: %s)",
 					p.what, l.ID, l.kind(), l.Ino, ino, p.outcomes[l.Idx], l.actName())
 			}
@@ -1048,7 +1051,7 @@ func vfC15NewPending(what string) *vfC15Pending {
 	return &vfC15Pending{
 		what:    what,
 		changed: map[int]bool{}, open: map[int]bool{}, newNF: map[int]vfC15Expect{}, raw: map[int][]byte{},
-		outcomes: map[int]string{},
+		outcomes: map[int]string{}, rewriteOK: map[int]bool{},
 	}
 }
 
@@ -1246,6 +1249,45 @@ func (w *vfC15World) failedRepoint(t *rapid.T) {
 	vfC15.Class("refresh:failed_repoint:" + l.kind())
 }
 
+// mirrorRepoint points a list, through POST /control/filtering/set_url, to
+// another location that serves the very content the list was last stored from
+// (a mirror).  The request succeeds, and the list must be what it was: the same
+// stored form, count and rules in force.
+func (w *vfC15World) mirrorRepoint(t *rapid.T) {
+	var cands []*vfC15List
+	for _, l := range w.lists {
+		if !l.Local && l.Stored && len(l.Rules) > 0 && l.LastRaw != nil {
+			cands = append(cands, l)
+		}
+	}
+	if len(cands) == 0 {
+		t.Skip("no list stored from an http source yet")
+	}
+	l := rapid.SampledFrom(cands).Draw(t, "mirror_list")
+	act := &vfC15Act{Kind: "ok", Variant: "mirror", Body: l.LastRaw}
+	w.srv.mu.Lock()
+	w.srv.acts[l.Idx] = act
+	w.srv.mu.Unlock()
+	l.act = act
+	target := fmt.Sprintf("%s/r/%d", w.srv.srv.URL, l.Idx)
+	if strings.Contains(l.URL, "/r/") {
+		target = fmt.Sprintf("%s/l/%d", w.srv.srv.URL, l.Idx)
+	}
+	body, _ := json.Marshal(map[string]any{
+		"url": l.URL, "whitelist": l.Allow,
+		"data": map[string]any{"name": fmt.Sprintf("list %d", l.Idx), "url": target, "enabled": true},
+	})
+	code, resp := w.call(t, http.MethodPost, "/control/filtering/set_url", body)
+	if code != http.StatusOK {
+		t.Fatalf("set_url of list %d (%s) to the mirror %s was refused: %d %s", l.ID, l.kind(), target, code, resp)
+	}
+	l.URL = target
+	w.pending = vfC15NewPending(fmt.Sprintf("re-point of list %d to a mirror with the same content", l.ID))
+	w.pending.rewriteOK[l.Idx] = true
+	l.Hist = append(l.Hist, "repoint=mirror")
+	vfC15.Class("refresh:mirror_repoint:" + l.kind())
+}
+
 // addList adds one more block list through POST /control/filtering/add_url; its
 // source delivers a first version at once.  The list then takes part in the
 // refreshes like the others -- and none of the others may be touched by it.
@@ -1389,6 +1431,7 @@ func TestVFC15Refresh(t *testing.T) {
 			},
 			"restart":        func(t *rapid.T) { w.restart(t) },
 			"failed_repoint": func(t *rapid.T) { w.failedRepoint(t) },
+			"mirror_repoint": func(t *rapid.T) { w.mirrorRepoint(t) },
 			"add_list":       func(t *rapid.T) { w.addList(t) },
 			"":               func(t *rapid.T) { w.verify(t) },
 		})
